@@ -117,6 +117,15 @@ func Int32(name string) int32   { return int32(val(name).Uint64()) }
 func Int64(name string) int64   { return int64(val(name).Uint64()) }
 func Int(name string) int       { return int(val(name).Uint64()) }
 
+// SmallBase returns a fresh symbolic uint64 that is assumed to be <= 2^62, so
+// that base + small offset never wraps; the engine then decides comparisons
+// of base+c1 with base+c2 from the offsets alone.
+func SmallBase(name string) uint64 {
+	v := Uint64(name)
+	Assume(v <= 1<<62)
+	return v
+}
+
 // Bytes returns n fresh symbolic bytes named name[0..n).
 func Bytes(name string, n int) []byte {
 	b := make([]byte, n)
